@@ -349,7 +349,7 @@ def main(tier, seed):
     st = D['structs']['reb_treecell']
     flds = dict((f['fname'], f) for f in st['fields'])
     lay = dict(size=st['size'], offsets=dict((k, flds[k]['offset']) for k in ('x', 'y', 'z', 'w', 'm', 'mx', 'my', 'mz', 'oct', 'pt', 'remote')))
-    nb = 96 if tier == 'quick' else 2400
+    nb = 192 if tier == 'quick' else 2400
     cases = {'rel': [], 'asan': []}
     for i in range(nb):
         cases['rel'].append(dict(seed=r.getrandbits(40), n=3, tier=tier, layout=lay))
